@@ -2,6 +2,7 @@
 specs TMConsensusNode / TMConsensusNet / TMConsensusSolo, trace spec TMConsensusTrace)."""
 import json
 import os
+import shutil
 
 from vlib import core
 from vlib.core import Undecided, log
@@ -151,7 +152,7 @@ def act_to_step(a):
 
 NET_CONSTS = {"ByzValues": '{"Z0", "ZX"}', "LazyByz": "TRUE",
               "TimeoutsOn": '{"NewHeight", "Propose", "PrevoteWait", "PrecommitWait"}'}
-NET_INVS = ["Agreement", "DecisionValid", "NoPanic", "DecisionCertified", "NoEquivocation"]
+NET_INVS = ["Agreement", "DecisionValid", "NoPanic", "DecisionCertified", "NoEquivocation", "CommitPartsMatch"]
 
 
 def net_mc(ctx, name, info, byz, maxround, weak=(), lazy=True, view=True, invariants=NET_INVS, byzvalues=None):
@@ -390,3 +391,198 @@ def load_prefixes(powers, byz):
                 if a["powers"] == powers and a["byz"] == byz:
                     out.append(a)
     return out
+
+
+# ---------------------------------------------------------------------- planning from an observed state
+def _balanced(text, start):
+    """text of the TLA+ tuple that starts at text[start] == '<' ('<<' ... matching '>>'), string-aware"""
+    depth, i, n, instr = 0, start, len(text), False
+    while i < n:
+        c = text[i]
+        if instr:
+            if c == "\\":
+                i += 1
+            elif c == '"':
+                instr = False
+        elif c == '"':
+            instr = True
+        elif text.startswith("<<", i):
+            depth += 1
+            i += 1
+        elif text.startswith(">>", i):
+            depth -= 1
+            i += 1
+            if depth == 0:
+                return text[start:i + 1]
+        i += 1
+    return None
+
+
+def _tla_msg(m):
+    return '[t |-> "%s", src |-> "%s", r |-> %d, v |-> "%s", pol |-> %d]' % (m["t"], m["src"], m["r"], m["v"], m["pol"])
+
+
+def _inq_after(run, me):
+    """the node's own-message queue after the rows of `run` (the driver feeds it in FIFO order: every output of a
+    step is appended — a proposal as proposal + block — and ProcessInternal pops the head)"""
+    q = []
+    for e in run:
+        if e.get("n") != me or e.get("ev") not in ("Deliver", "ProcessInternal", "Timeout"):
+            continue
+        if e["ev"] == "ProcessInternal" and q:
+            q.pop(0)
+        for o in e.get("out") or []:
+            if o["t"] == "sched":
+                continue
+            if o["t"] == "proposal":
+                q.append({"t": "proposal", "src": me, "r": o["r"], "v": o["v"], "pol": o["pol"]})
+                q.append({"t": "block", "src": "-", "r": -1, "v": o["v"], "pol": -2})
+            else:
+                q.append({"t": o["t"], "src": me, "r": o["r"], "v": o["v"], "pol": -2})
+    return q
+
+
+def plan_from_drift_solo(ctx, binp, rows, drifts, base_inp, info, byz, maxround, me, label, nprefix=4, budget=150):
+    """Conformance drift marks a state of the REAL node that the spec would not have produced.  Use TLC as a planner:
+    take the observed state at the first drifting step (node record as projected from the real object, own-message queue,
+    signatures released so far), make it the initial state of the design spec TMConsensusSolo (real rules, Weak = {}) and
+    search breadth-first for an adversary continuation after which a C02 clause fails.  Such a continuation is the
+    adversary's strategy against a node whose state really is what was observed; it is appended to the schedule that led
+    to the drift and executed on the real node.  Only what the real node then does is judged (level 2, by the trace spec).
+    Costs nothing on a tree without drift.  Returns (rows, validation result) or (None, None)."""
+    if not drifts:
+        return None, None
+    runs = {}
+    for r in rows:
+        runs.setdefault(r.get("run"), []).append(r)
+    plans, seen, percls = [], set(), {}
+    for d in drifts:
+        row = d["row"]
+        if row.get("n") != me or row.get("ev") not in ("Deliver", "ProcessInternal", "Timeout"):
+            continue
+        cls = json.dumps([d.get("what"), d.get("fields")], sort_keys=True)
+        run = runs.get(row.get("run")) or []
+        key = json.dumps({k: row.get(k) for k in ("ev", "n", "m", "k", "post")}, sort_keys=True)
+        idx = next((i for i, e in enumerate(run) if e.get("ev") == row.get("ev") and
+                    json.dumps({k: e.get(k) for k in ("ev", "n", "m", "k", "post")}, sort_keys=True) == key), None)
+        if idx is None or any(e.get("ev") == "Set" for e in run[:idx + 1]):
+            continue            # deduplicated runs do not carry their own prefix; the first run with this prefix does
+        prefix = run[:idx + 1]
+        steps = [{"name": e["ev"], "n": e["n"], "m": e.get("m"), "k": e.get("k", "-")} for e in prefix[1:]
+                 if e.get("ev") in ("Deliver", "ProcessInternal", "Timeout")]
+        sk = json.dumps(steps, sort_keys=True)
+        if sk in seen or percls.get(cls, 0) >= 2:
+            continue
+        seen.add(sk)
+        percls[cls] = percls.get(cls, 0) + 1
+        k = len(plans)
+        # 1. the observed state, as TLC sees it after consuming the prefix with the trace spec
+        name = "PlanDump_%s_%d" % (label, k)
+        gen_mc(ctx, name, "TMConsensusTrace", info, byz, maxround, next_="PlanNext")
+        base = ctx.spec_copy()
+        with open(os.path.join(base, name + ".tla")) as f:
+            txt = f.read()
+        txt = txt.replace("====", 'PlanFinish == l = Len(Trace) + 1 /\\ PrintT(<<"PLANSTATE", st, sgn>>) /\\ l\' = l + 1 /\\ '
+                          'UNCHANGED <<st, dec, sgn, gst, viol, drift>>\nPlanNext == Step \\/ PlanFinish\n====')
+        with open(os.path.join(base, name + ".tla"), "w") as f:
+            f.write(txt)
+        dd = os.path.join(ctx.work, "plan-%s-%d" % (label, k))
+        shutil.copytree(base, dd)
+        core.write_ndjson(os.path.join(dd, "trace.ndjson"), prefix)
+        r = ctx.tlc(name, name + ".cfg", cwd=dd, workers=1, timeout=300, deque=True, label=name)
+        import re as _re
+        mm = _re.search(r'<<\s*"PLANSTATE"', r.out)
+        st_txt = _balanced(r.out, mm.start()) if mm else None
+        shutil.rmtree(dd, ignore_errors=True)
+        if not st_txt:
+            log("plan %s/%d: no state dump" % (label, k))
+            continue
+        # 2. the design spec from that state
+        vals = sorted({x for e in prefix for x in _names_in(e) if x and x not in ("-", "nil") and not x.startswith("B")} | {"Z0", "Z1"})
+        pname = "Plan_%s_%d" % (label, k)
+        solo_mc(ctx, pname, info, me, maxround, vals)
+        with open(os.path.join(base, pname + ".tla")) as f:
+            txt = f.read()
+        inq = "<<" + ", ".join(_tla_msg(m) for m in _inq_after(prefix, me)) + ">>"
+        txt = txt.replace("====", r'''PLANSTATE == %s
+PSt == PLANSTATE[2][Me]
+PSg == PLANSTATE[3][Me]
+PSeqSet(q) == {q[i] : i \in DOMAIN q}
+PlanInit ==
+  /\ s = PSt
+  /\ inq = %s
+  /\ sig = [k \in SigKeys |-> LET I == {i \in DOMAIN PSg : PSg[i].t = k[1] /\ PSg[i].r = k[2]} IN
+               IF I = {} THEN NoSig ELSE LET i == CHOOSE x \in I : \A y \in I : y <= x IN [v |-> PSg[i].v, pol |-> PSg[i].pol]]
+  /\ lock = LET I == {i \in DOMAIN PSg : PSg[i].t = "precommit" /\ PSg[i].v # Nil} IN
+               IF I = {} THEN [r |-> -1, v |-> Nil] ELSE LET i == CHOOSE x \in I : \A y \in I : y <= x IN [r |-> PSg[i].r, v |-> PSg[i].v]
+  /\ have = UNION {PSeqSet(PSg[i].held) : i \in DOMAIN PSg} \cup ({PSt.propBlock} \ {Nil})
+  /\ bad = {}
+  /\ act = [name |-> "Init", m |-> NoMsg, m2 |-> NoMsg, k |-> "-"]
+  /\ hist = << >>
+====''' % (st_txt, inq))
+        with open(os.path.join(base, pname + ".tla"), "w") as f:
+            f.write(txt)
+        with open(os.path.join(base, pname + ".cfg")) as f:
+            c = f.read()
+        with open(os.path.join(base, pname + ".cfg"), "w") as f:
+            f.write(c.replace("INIT Init", "INIT PlanInit"))
+        rp = ctx.tlc(pname, pname + ".cfg", timeout=budget, heap="8g", label=pname)
+        if rp.errors:
+            ctx.save_log(pname, rp.out)
+            log("plan %s/%d: TLC error %s" % (label, k, rp.errors[:1]))
+            continue
+        if not rp.violations:
+            log("plan %s/%d: no continuation found that breaks a clause (%d states, %ds)" % (label, k, rp.distinct, budget))
+            continue
+        tail = []
+        for _h, stt in rp.violations[0]["trace"][1:]:
+            tail += solo_act_to_steps(stt["act"], me)
+        log("plan %s/%d: continuation of %d steps breaks %s in the design spec from the observed state" % (
+            label, k, len(tail), rp.violations[0]["name"]))
+        plans.append({"id": 950000 + k, "steps": steps + tail})
+        if len(plans) >= nprefix:
+            break
+    if not plans:
+        return None, None
+    inp = dict(base_inp, scheds=plans, random=0, randtail=0)
+    prow, _st = run_driver(ctx, binp, inp, "plan-" + label)
+    v = validate(ctx, prow, info, byz, maxround, "plan" + label, dedupe=False)
+    log("planned continuations %s: %d schedules -> %d property failures on the real node" % (label, len(plans), len(v["viol"])))
+    return prow, v
+
+
+# ---------------------------------------------------------------------- TLC as planner behind a given prefix (network spec)
+def _tla_step(st):
+    m = st.get("m") or {"t": "-", "src": "-", "r": -1, "v": "-", "pol": -2}
+    return '[name |-> "%s", n |-> "%s", m |-> %s, k |-> "%s"]' % (st["name"], st["n"], _tla_msg(m), st.get("k") or "-")
+
+
+def net_plan(ctx, name, info, byz, maxround, prefix_steps, weak, invariant, corridor=None, slack=14, budget=900, byzvalues=None):
+    """Breadth-first search of TMConsensusNet (with the Weak switches given) for a violation of `invariant` among the
+    behaviours that START WITH the schedule `prefix_steps` and continue freely for at most `slack` steps (inside the
+    state constraint `corridor`, if any).  Returns (all steps, TLCResult) or (None, TLCResult).  Synthesis only."""
+    net_mc(ctx, name, info, byz, maxround, weak=weak, lazy=False, view=False, invariants=[invariant], byzvalues=byzvalues)
+    d = ctx.spec_copy()
+    with open(os.path.join(d, name + ".tla")) as f:
+        txt = f.read()
+    sched = "<<" + ",\n  ".join(_tla_step(s) for s in prefix_steps) + ">>"
+    txt = txt.replace("====", """VARIABLE pc
+PSched == %s
+PInit == Init /\\ pc = 0
+PNext == /\\ Next
+         /\\ pc' = pc + 1
+         /\\ (pc < Len(PSched) => (act'.name = PSched[pc + 1].name /\\ act'.n = PSched[pc + 1].n /\\ act'.k = PSched[pc + 1].k
+                                    /\\ (act'.name = "Timeout" \\/ act'.m = PSched[pc + 1].m)))
+PBound == pc <= Len(PSched) + %d
+PCorridor == pc <= Len(PSched) \\/ %s
+====""" % (sched, slack, corridor or "TRUE"))
+    with open(os.path.join(d, name + ".tla"), "w") as f:
+        f.write(txt)
+    with open(os.path.join(d, name + ".cfg")) as f:
+        c = f.read()
+    with open(os.path.join(d, name + ".cfg"), "w") as f:
+        f.write(c.replace("INIT Init", "INIT PInit").replace("NEXT Next", "NEXT PNext") + "CONSTRAINT PBound\nCONSTRAINT PCorridor\n")
+    r = ctx.tlc(name, name + ".cfg", timeout=budget, heap="12g", label=name)
+    if not r.violations:
+        return None, r
+    return trace_to_sched(r.violations[0]["trace"])["steps"], r
